@@ -112,6 +112,12 @@ pub fn build_image(case: &Case) -> Result<Image, String> {
         Op::Fill { start: 40000, n: 6, val: v(30, false) },
         Op::Delete(3000),
         Op::Flush,
+        // queue-like shape: the lowest keys are written and deleted again, live keys follow in the
+        // same table, so that a compaction starts with a long run of entries it drops entirely
+        Op::Fill { start: 0, n: 10, val: v(50, false) },
+        Op::Batch((0..10usize.min(u.len())).map(|i| ((((i as u32) * 65536 + u.len() as u32 - 1) / u.len() as u32) as u16, None)).collect()),
+        Op::Fill { start: ((12usize.min(u.len() - 1) as u32 * 65536 + u.len() as u32 - 1) / u.len() as u32) as u16, n: 6, val: v(40, false) },
+        Op::Flush,
         Op::WaitIdle,
         Op::Put(1000, v(20, false)),
         Op::Put(30000, v(25, true)),
@@ -468,7 +474,7 @@ fn eval_inner(p: &CorruptPoint) -> Result<EvalInfo, (String, bool)> {
     }
     // A compaction over the damaged table must not turn the damage into silently missing or
     // resurrected data: it either fails (the files stay) or rewrites what it could verify.
-    if p.file.ends_with(".rdb") && mix(damage_at as u64, p.file.len() as u64) % 4 == 0 {
+    if p.file.ends_with(".rdb") {
         db.compact_range(None..None);
         db.verif_wait_idle(Duration::from_secs(600));
         info.compacted = true;
